@@ -29,6 +29,16 @@ def page_scenarios(tier, seed):
         # every scenario starts by putting other structures right behind the node table's first page
         steps.append({"op": "nodes", "n": rng.choice([5, 40, 200, 511, 512, 513]), "label": rng.choice("AB")})
         total += steps[-1]["n"]
+        # crash images of the first transaction that makes the node table move: fill up to the page boundary quietly, put
+        # another structure behind the table, then create the nodes that open the next page with every I/O step imaged
+        fill = (512 - total % 512) - 2
+        if fill > 0:
+            steps.append({"op": "nodes", "n": fill, "label": "A"})
+            total += fill
+        steps.append({"op": "edges", "n": 40, "from": 0, "stride": 7})
+        steps.append({"op": "compact"})
+        steps.append({"op": "nodes", "n": 5, "label": "B", "crash": True, "observe": True, "probes": [total + 4]})
+        total += 5
         indexed = False
         while total < budget:
             kind = rng.choices(["nodes", "edges", "blobs", "compact", "index", "vectors", "reopen", "checkpoint", "search"],
@@ -54,15 +64,6 @@ def page_scenarios(tier, seed):
                 st["observe"] = True
                 st["probes"] = sorted({1, max(1, total // 2), total, rng.randrange(1, total + 1)})
                 since_obs = 0
-        # crash images of the transaction that makes the node table move: fill up to a page boundary quietly, put another
-        # structure behind the table, then create the nodes that open the next page with every I/O step imaged
-        fill = (512 - total % 512) - 2
-        if fill > 0:
-            steps.append({"op": "nodes", "n": fill, "label": "A"})
-            total += fill
-        steps.append({"op": "compact"})
-        steps.append({"op": "nodes", "n": 5, "label": "B", "crash": True, "observe": True, "probes": [total + 4]})
-        total += 5
         steps.append({"op": "compact"})
         steps.append({"op": "reopen", "observe": True, "probes": [1, total]})
         steps.append({"op": "nodes", "n": 3, "label": "A", "observe": True, "probes": [total + 1]})
